@@ -95,3 +95,4 @@ unsigned char *vsim_sid_psk_key(sslSessionId_t *sid, int *len)
 unsigned char *vsim_sid_psk_id(sslSessionId_t *sid, int *len) { *len = 0; return NULL; }
 unsigned char *vsim_sid_psk_key(sslSessionId_t *sid, int *len) { *len = 0; return NULL; }
 #endif
+int vsim_peek_ems(const ssl_t *ssl) { return ssl ? ssl->extFlags.extended_master_secret : 0; }
